@@ -64,6 +64,28 @@ elif var == 'offline' and ss.TGOV1.n > 0:
     ss.TGOV1.u.v[-1] = 0
 elif var == 'offline_exc' and ss.EXDC2.n > 0:
     ss.EXDC2.u.v[0] = 0
+elif var == 'unit_off':
+    # one unit completely out of service in the data: static generator, the machine that replaces it, its governor
+    g = ss.PV.idx.v[0]
+    ss.PV.u.v[0] = 0
+    for mname in ('GENCLS', 'GENROU'):
+        mdl = ss.models[mname]
+        for i, gg in enumerate(mdl.gen.v):
+            if gg == g:
+                mdl.u.v[i] = 0
+                for tg in ss.TurbineGov.models.values():
+                    for j, syn in enumerate(tg.syn.v):
+                        if syn == mdl.idx.v[i]:
+                            tg.u.v[j] = 0
+                for ex in ss.Exciter.models.values():
+                    for j, syn in enumerate(ex.syn.v):
+                        if syn == mdl.idx.v[i]:
+                            ex.u.v[j] = 0
+elif var == 'nan_droop':
+    # zero droop: the governor gain is 1/R = inf and inf * 0 = NaN in its damping equation
+    for tg in (ss.TG2, ss.TGOV1):
+        if tg.n > 0:
+            tg.R.v[0] = 0.0
 elif var == 'corrupt' and ss.TGOV1.n > 0:
     for i in range(len(ss.TGOV1.VMAX.v)):
         ss.TGOV1.VMAX.v[i] = 0.1
@@ -128,6 +150,9 @@ def run(ctx):
     for v in ('split', 'offline', 'offline_exc', 'corrupt'):
         specs.append({'file': base, 'variant': v})
     specs.append({'file': os.path.abspath(os.path.join(root, 'ieee14', 'ieee14_full.xlsx')), 'variant': 'split'})
+    pjm = os.path.abspath(os.path.join(root, '5bus', 'pjm5bus.xlsx'))
+    specs.append({'file': pjm, 'variant': 'unit_off'})
+    specs.append({'file': pjm, 'variant': 'nan_droop'})
     with mp.get_context('fork').Pool(8) as pool:
         res = pool.map(job, specs)
     for sp, r in zip(specs, res):
@@ -148,6 +173,9 @@ def run(ctx):
             ctx.oracle_fail('init-failure-without-residual', '%s: initialisation reports failure although all residuals are below tol' % (tag,), tag)
         if not r['bus_same']:
             ctx.oracle_fail('bus-voltages-changed-by-init', '%s: bus voltages after dynamic initialisation differ from the power-flow solution' % (tag,), tag)
+        if sp.get('variant') == 'nan_droop':
+            ctx.count('nan_residual_reported' if r['test_ok'] is False else 'nan_residual_case_without_nan' if not r['nan'] else 'nan_residual_not_reported')
+            continue     # (a NaN residual presented as success is caught by init-success-with-residual above)
         if sp.get('variant') == 'corrupt':
             ctx.count('corrupt_reported' if r['test_ok'] is False else 'corrupt_not_reported')
             if r['test_ok'] is not False:
